@@ -326,12 +326,31 @@ func C17Cases(c *Ctx, rng *rand.Rand, spec *LSpec, withDisk bool, nArgv int) ([]
 			}
 		}
 	}
+	type sub struct {
+		mask  int
+		stage string // "" = drawn per member
+	}
+	var cases []sub
 	for _, m := range subsets {
+		if m&(m-1) == 0 {
+			// exactly one defective converter: every stage in turn
+			for _, st := range stages {
+				cases = append(cases, sub{m, st})
+			}
+		} else {
+			cases = append(cases, sub{m, ""})
+		}
+	}
+	for _, cs := range cases {
+		m := cs.mask
 		bad := v2.Clone()
 		var lab []string
 		for i := 0; i < n; i++ {
 			if m&(1<<i) != 0 {
 				bad.Convs[i].Defect = stages[rng.IntN(len(stages))]
+				if cs.stage != "" {
+					bad.Convs[i].Defect = cs.stage
+				}
 				lab = append(lab, fmt.Sprintf("%s:%s", bad.Convs[i].Name, bad.Convs[i].Defect))
 			}
 		}
@@ -467,6 +486,16 @@ func CheckC17(c *Ctx) (*Outcome, error) {
 			spec = DrawLayout(rng, 2+rng.IntN(3), LayoutOpts{UserPkgs: true, Guarded: rng.IntN(3) == 0})
 			if !hasPathConflict(spec) {
 				break
+			}
+		}
+		if i%3 == 0 {
+			// every interface converter of the first package goes to the package's default
+			// file: a shared output file is guaranteed
+			for k := range spec.Convs {
+				if spec.Convs[k].Kind == "interface" {
+					spec.Convs[k].Dir = spec.Convs[0].Dir
+					spec.Convs[k].OutFile, spec.Convs[k].OutPkg, spec.Convs[k].ExtIn = "", "", ""
+				}
 			}
 		}
 		hs, err := C17Cases(c, rng, spec, i < nDisk, nArgv)
